@@ -309,12 +309,25 @@ def run_case(ctx, h, tmp):
                 before_holders = holders(subtree(d) if rec else [d])      # a recursive delete also deletes the descendants
                 ctx.count('delete/recursive' if rec else 'delete/non-recursive')
                 rehash = lambda hs: bool(hs) and all(g.many and g.unique and hasattr(x, '_proxy_path') for (_o, g, x) in hs)
+
+                def stale_sets():
+                    # the condition of F-C14-1 anywhere in the loaded world: a unique collection that yields an element (a proxy
+                    # hashed before it was followed) it can no longer find — whatever has to take anything out of such a
+                    # collection, or renumber it, fails inside the ordered set
+                    for o in everything:
+                        for g in _refs(o):
+                            if g.many and g.unique:
+                                c = o.eGet(g)
+                                if any(hasattr(x, '_proxy_path') and x not in c for x in list(c)):
+                                    return True
+                    return False
+                stale_before = stale_sets()
                 try:
                     (t if how == 'through-reference' else d).delete(recursive=rec)
                 except Exception as e:
                     # F-C14-1's root cause (a proxy hashed before it was resolved cannot be found in its ordered set any more)
                     # also makes the removal itself fail
-                    risky = [hd for hd in before_holders if hd[1].many and hd[1].unique and hasattr(hd[2], '_proxy_path')]
+                    risky = [hd for hd in before_holders if hd[1].many and hd[1].unique and hasattr(hd[2], '_proxy_path')] or stale_before
                     problems.append(('deletion', f'object {i}.{fname}[{n}] deleted ({how}): raised {type(e).__name__}: {str(e)[:60]}',
                                      'proxy-rehash-after-resolution' if risky and isinstance(e, (KeyError, RuntimeError)) else 'none'))
                     raise StopIteration
